@@ -263,6 +263,11 @@ def render_poseidon(d):
         L.append(f"def {nm} : PoseidonParams :=\n  {{ rF := {v['R_F']}, rP := {v['R_P']}, t := {v['t']}, a := {v['a']},\n    roundConstants := {rc},\n    matrix := {mx} }}")
     L.append("/-- the table `poseidon_constants`, keyed by backend name, in source order -/\ndef poseidonTable : List (String × PoseidonParams) := "
              + lean_list(names, lambda kn: f"({lean_str(kn[0])}, {kn[1]})"))
+    # counted by the extractor on the source literal, independently of the rendered tables: the number of ROUNDS of a set is
+    # R_F + R_P, the number of ROWS of its round-constant table may be larger (pinned by `C20_round_rows`)
+    L.append("/-- per registered set, in source order: (key, `R_F`, `R_P`, number of rows of `round_constants`) -/\n"
+             "def poseidonRounds : List (String × Nat × Nat × Nat) := "
+             + lean_list(list(d.items()), lambda kv: f"({lean_str(kv[0])}, {kv[1]['R_F']}, {kv[1]['R_P']}, {len(kv[1]['round_constants'])})"))
     L.append("end Pysnark.Gen")
     return "\n".join(L) + "\n"
 
